@@ -495,6 +495,74 @@ func nilTestedFields(info *types.Info, pipeT *types.Named, cond ast.Expr) (field
 	return uniq(fields), false
 }
 
+// predicateTruthFields analyses a boolean helper over a pipeline element: `sure` lists the alternatives whose nil test alone makes
+// the helper return true (a top-level `return a != nil || b != nil`, or `if a != nil { return true }`), `maybe` those tested
+// under further conditions.
+func predicateTruthFields(info *types.Info, pipeT *types.Named, hd *ast.FuncDecl) (sure, maybe []string) {
+	var orLeaves func(e ast.Expr) []ast.Expr
+	orLeaves = func(e ast.Expr) []ast.Expr {
+		if be, ok := ast.Unparen(e).(*ast.BinaryExpr); ok && be.Op == token.LOR {
+			return append(orLeaves(be.X), orLeaves(be.Y)...)
+		}
+		return []ast.Expr{e}
+	}
+	returnsTrue := func(list []ast.Stmt) bool {
+		if len(list) != 1 {
+			return false
+		}
+		r, ok := list[0].(*ast.ReturnStmt)
+		if !ok || len(r.Results) != 1 {
+			return false
+		}
+		id, ok := ast.Unparen(r.Results[0]).(*ast.Ident)
+		return ok && id.Name == "true"
+	}
+	for _, st := range hd.Body.List {
+		switch x := st.(type) {
+		case *ast.ReturnStmt:
+			if len(x.Results) == 1 {
+				for _, leaf := range orLeaves(x.Results[0]) {
+					fs, exact := nilTestedFields(info, pipeT, leaf)
+					if exact {
+						sure = append(sure, fs...)
+					} else {
+						maybe = append(maybe, fs...)
+					}
+				}
+			}
+		case *ast.IfStmt:
+			if x.Init == nil && x.Else == nil && returnsTrue(x.Body.List) {
+				for _, leaf := range orLeaves(x.Cond) {
+					fs, exact := nilTestedFields(info, pipeT, leaf)
+					if exact {
+						sure = append(sure, fs...)
+					} else {
+						maybe = append(maybe, fs...)
+					}
+				}
+			} else {
+				fs, _ := nilTestedFields(info, pipeT, x.Cond)
+				maybe = append(maybe, fs...)
+			}
+		case *ast.SwitchStmt:
+			if x.Tag == nil {
+				for _, cc := range x.Body.List {
+					cl := cc.(*ast.CaseClause)
+					for _, e := range cl.List {
+						fs, exact := nilTestedFields(info, pipeT, e)
+						if exact && returnsTrue(cl.Body) {
+							sure = append(sure, fs...)
+						} else {
+							maybe = append(maybe, fs...)
+						}
+					}
+				}
+			}
+		}
+	}
+	return uniq(sure), uniq(maybe)
+}
+
 // buildsStage: the statements contain a composite literal of a type with a Process method,
 // directly or one call deep into a function of the same package.
 func (c *Ctx) buildsStage(p *packages.Package, stmts []ast.Stmt, depth int) bool {
@@ -583,7 +651,37 @@ func (c *Ctx) stageLoops() []*stageLoop {
 					return true
 				}
 				fields, exact := nilTestedFields(info, pipeT, is.Cond)
+				exactOf := map[string]bool{}
 				for _, f := range fields {
+					exactOf[f] = exact
+				}
+				// the test may be a predicate helper taking the pipeline element: the fields whose nil test alone makes it true
+				if call, ok := ast.Unparen(is.Cond).(*ast.CallExpr); ok && len(fields) == 0 {
+					if hf, ok := calleeObj(info, call).(*types.Func); ok && strings.HasPrefix(objPkgPath(hf), modPath) {
+						takesStage := false
+						for _, a := range call.Args {
+							if tv, ok := info.Types[a]; ok && namedOf(tv.Type) == pipeT {
+								takesStage = true
+							}
+						}
+						if hp := c.ByPath[objPkgPath(hf)]; hp != nil && takesStage {
+							if hd := c.declOf(hp, hf); hd != nil && hd.Body != nil {
+								sure, maybe := predicateTruthFields(hp.TypesInfo, pipeT, hd)
+								for _, f := range maybe {
+									fields = append(fields, f)
+									exactOf[f] = false
+								}
+								for _, f := range sure {
+									fields = append(fields, f)
+									exactOf[f] = true
+								}
+								fields = uniq(fields)
+							}
+						}
+					}
+				}
+				for _, f := range fields {
+					exact := exactOf[f]
 					s.tested[f] = true
 					if c.buildsStage(fi.Pkg, is.Body.List, 1) && exact {
 						s.handled[f] = true
